@@ -1,2 +1,70 @@
+"""C14 - fleet reference checks, phrased on observable instants only (see DESIGN.md section 4, C14).
+
+l(x): load (put) instant, a(x): instant x becomes available (first seen in the ready list), tau: transit delay.
+The departure of a delivery that becomes available at a is a - 2*tau.
+"""
+EPS = 1e-9
+
+
 def check_fleet(h):
-    return
+    cfg = h.cfg
+    tau, delay, cap = cfg["transit"], cfg["delay"], cfg["cap"]
+    T = h.env.now
+    items = [r for r in h.items.values() if r.put_t is not None]
+    items.sort(key=lambda r: r.put_seq)
+    if not items:
+        return
+    lab = ()
+    # (b) full round trip, (d) waiting bound
+    for r in items:
+        if r.avail_t is not None:
+            if r.avail_t < r.put_t + 2 * tau - EPS:
+                h.violate("C14", "round-trip", f"{r.name} loaded at {r.put_t} became available at {r.avail_t}, before a full round trip 2*{tau}", feat=lab)
+            if r.avail_t - r.put_t > delay + 2 * tau + EPS:
+                h.violate("C14", "waiting-bound", f"{r.name} loaded at {r.put_t} became available only at {r.avail_t}: waited longer than delay {delay} + round trip {2*tau}", feat=lab)
+        elif T - r.put_t > delay + 2 * tau + EPS:
+            h.violate("C14", "waiting-bound", f"{r.name} loaded at {r.put_t} is still not available at {T}: waited longer than delay {delay} + round trip {2*tau}", feat=lab)
+    # (a) whole batches in loading order
+    groups = {}
+    for r in items:
+        if r.avail_t is not None:
+            groups.setdefault(r.avail_t, []).append(r)
+    for a, g in sorted(groups.items()):
+        dep = a - 2 * tau
+        g.sort(key=lambda r: r.avail_seq)
+        if [r.put_seq for r in g] != sorted(r.put_seq for r in g):
+            h.violate("C14", "loading-order", f"delivery at {a}: items became available in order {[r.name for r in g]}, loaded in order "
+                      f"{[r.name for r in sorted(g, key=lambda r: r.put_seq)]}", feat=lab)
+        for r in g:
+            if r.put_t > dep + EPS:
+                h.violate("C14", "rode-along", f"{r.name} loaded at {r.put_t}, after the departure at {dep}, was delivered with that trip at {a}", feat=lab)
+        for y in items:
+            if y.put_t < dep - EPS and (y.avail_t is None or y.avail_t > a + EPS):
+                h.violate("C14", "left-behind", f"{y.name} loaded at {y.put_t} was waiting at the departure at {dep} but was not in the delivery at {a} "
+                          f"(delivered {[r.name for r in g]}; it became available at {y.avail_t})", feat=lab)
+                break
+        if len(g) > 1:
+            h.probe("c14_batch_of_several")
+    # (c) capacity trigger: the put that fills the fleet makes it depart at once
+    held = 0
+    evs = sorted([x for x in h.hist if x[0] in ("put", "get")], key=lambda x: x[1])
+    for x in evs:
+        if x[0] == "put":
+            held += 1
+            if held == cap:
+                t = x[2]
+                r = h.items[x[3]]
+                h.probe("c14_capacity_reached")
+                if t + 2 * tau <= T - EPS or r.avail_t is not None:
+                    if r.avail_t is None or abs(r.avail_t - (t + 2 * tau)) > EPS:
+                        h.violate("C14", "capacity-trigger", f"the load of {r.name} at {t} filled the fleet (capacity {cap}) but it became available at "
+                                  f"{r.avail_t}, not one round trip later ({t + 2*tau})", feat=lab)
+        else:
+            held -= 1
+    # reach probes
+    deps = sorted({a - 2 * tau for a in groups})
+    for r in items:
+        if any(abs(r.put_t - d) <= EPS for d in deps):
+            h.probe("c14_load_in_departure_instant")
+        if any(d + EPS < r.put_t < d + 2 * tau - EPS for d in deps):
+            h.probe("c14_load_during_trip")
